@@ -1647,12 +1647,16 @@ CHECK_REPLAY_WINDOW:
                     CHANGE_CIPHER_SPEC and FINISHED message. We hack around
                     some values to support this case.
                     http://tools.ietf.org/html/draft-bmoeller-tls-falsestart-00
+                    The same holds for a client in a resumed handshake whose
+                    server sends application data right behind its FINISHED
+                    (the server-side form of False Start in that draft): had
+                    the record arrived in a later read it would be accepted, so
+                    it must not be dropped because it arrived in the same one.
                  */
                 if (*c == SSL_RECORD_TYPE_APPLICATION_DATA &&
-                    ssl->hsState == SSL_HS_DONE &&
-                    (ssl->flags & SSL_FLAGS_SERVER))
+                    ssl->hsState == SSL_HS_DONE)
                 {
-                    psTraceInfo(">>> Server buffering FALSE START APPLICATION_DATA\n");
+                    psTraceInfo(">>> Buffering FALSE START APPLICATION_DATA\n");
                     ssl->flags |= SSL_FLAGS_FALSE_START;
                     *remaining = *len - (c - origbuf);
                     *buf = c;
